@@ -214,6 +214,21 @@ PROPS = {
         exhaustive_note="exhaustive over all pixel values of every format with bpp <= 16; 24/32-bpp and float formats are sampled (byte-lane sweeps + random)",
         assumptions=["reference codec harness/ref_pixel.c written from the format macros of pixman.h", "yv12 is not exercised (planar layout); yuy2 only scanline-vs-pixel agreement"],
     ),
+    "C08": dict(
+        level="exploration", monitors={"mon_c08": {"sources": ["mon_c08.c", "vf_req.c", "ref_pixel.c", "vf.c"]}},
+        runs=[dict(name="default", monitor="mon_c08", flavour="plain", cases={"quick": 40000, "thorough": 3000000}),
+              dict(name="general-only", monitor="mon_c08", flavour="plain", config="general-only", env=GENERAL_ONLY, cases={"quick": 30000, "thorough": 2000000}),
+              dict(name="c-only", monitor="mon_c08", flavour="plain", config="c-only", env={"PIXMAN_DISABLE": "mmx sse2 ssse3"}, cases={"quick": 15000, "thorough": 1000000}),
+              dict(name="wholeops", monitor="mon_c08", flavour="plain", config="wholeops", env={"PIXMAN_DISABLE": "wholeops"}, cases={"quick": 15000, "thorough": 1000000}),
+              dict(name="asan", monitor="mon_c08", flavour="asan", cases={"quick": 6000, "thorough": 200000})],
+        rule="one case = OP_SRC from a transformed source (12 narrow formats, sizes 1..24 incl. 1- and 2-pixel, some 60..130 wide) into a8r8g8b8, destination optionally clipped into several runs; transforms: integer/fractional translations "
+             "(incl. exactly .5 and +-e), positive/negative scales on a 1/4 grid, 90/180/270 rotations, general affine, projective; filters NEAREST, BILINEAR, CONVOLUTION, SEPARABLE_CONVOLUTION; all four repeats. "
+             "Reference: destination pixel centre through the matrix in 128-bit integers; affine: rounded half-up to 16.16 then nearest=floor(x-e) / bilinear with 7-bit weights compared BIT-EXACTLY, convolution kernels aligned per rounding.txt +-1 code value; "
+             "projective: the exact quotient, any position within the propagated rounding error of the 16.16 numerators is admissible; repeat maps from their definitions; run under 4 chains so specialised and generic fetchers are held to the same reference; "
+             "evaluations = pixels compared; a cell = (source format, filter, repeat, transform class, tiny-source flags, clipped?)",
+        floors={"any": {"labels:filter_repeat_transform": 150, "pixels_affine_exact": 1000000, "pixels_projective": 100000, "pixels_affine_convolution": 200000, "samples_on_a_boundary": 20000}},
+        assumptions=["reference sampler harness/mon_c08.c written from the statement and rounding.txt", "wide (10-bit/float) sources are not sampled here (C10 covers their codecs)"],
+    ),
 }
 
 # ---------------------------------------------------------------- MANIFEST texts
@@ -272,6 +287,11 @@ MANIFEST_TEXT["C10"] = dict(
     technique="reference-codec runtime monitor, exhaustive over pixel values for bpp <= 16; translating accessors on an unmapped fake base (a bypass faults); bit-level store footprint",
     level_text="Exploration, exhaustive in the pixel-value dimension for all formats up to 16 bpp: decode, encode, round trips, footprint, reader agreement and accessor equivalence are each compared with an independent codec.",
     level_note="trusted: harness/ref_pixel.c; conversions go through OP_SRC composites (default and general-only chains)")
+
+MANIFEST_TEXT["C08"] = dict(
+    technique="reference-model runtime monitor: exact-arithmetic sampling positions, bit-exact nearest/bilinear reference, kernel-alignment reference for convolutions, under 4 implementation chains",
+    level_text="Exploration: 10^6..10^8 destination pixels of transformed OP_SRC composites compared with an independent sampler: bit-exact for affine nearest/bilinear, +-1 code value for convolutions, admissible-position window for projective transforms.",
+    level_note="trusted: the sampler in harness/mon_c08.c; codec from ref_pixel.c")
 
 NOT_CLAIMED = {p: "monitor not built yet in this round (design in DESIGN.md section 6); no claim is made" for p in
                ["C%02d" % i for i in range(1, 21)]}
